@@ -1095,3 +1095,51 @@ fn in_child(op: &str, doc: &str, want: &str, site: &str) -> Outcome {
         }
     }
 }
+
+// ------------------------------------------------------------------------------------------------
+// C11: normalized attribute values (XML 1.0 3.3.3).  (document, "name=value name=value ..." of the document element, as
+// the recommendation prescribes; values shown with {:?})
+
+pub const ATTR_NORM_CASES: [(&str, &str); 14] = [
+    ("<r a=\"x\ty\nz\"/>", "a=\"x y z\""),
+    ("<r a=\"&#9;&#10;&#13;&#32;|\"/>", "a=\"\\t\\n\\r |\""),
+    ("<!DOCTYPE r [<!ENTITY e \"v w\">]><r a=\"p&e;q\"/>", "a=\"pv wq\""),
+    ("<!DOCTYPE r [<!ENTITY e \"v\tw\nx\">]><r a=\"&e;\"/>", "a=\"v w x\""),
+    // 3.3.3, the recommendation's own example: character references INSIDE an entity's literal value are part of its
+    // replacement text, whose white space is normalized when the entity is referenced from an attribute value
+    ("<!DOCTYPE r [<!ENTITY d \"&#xD;\"><!ENTITY a \"&#xA;\"><!ENTITY da \"&#xD;&#xA;\">]><r a=\"&d;&d;A&a;&#x20;&a;B&da;\"/>", "a=\"  A   B  \""),
+    ("<!DOCTYPE r [<!ENTITY d \"&#xD;\">]><r a=\"&#xd;&#xd;A&#xa;&#xa;B&#xd;&#xa;\"/>", "a=\"\\r\\rA\\n\\nB\\r\\n\""),
+    ("<!DOCTYPE r [<!ENTITY t \"&#9;x\">]><r a=\"&t;\"/>", "a=\" x\""),
+    ("<!DOCTYPE r [<!ENTITY i \"&o;&o;\"><!ENTITY o \"a b\">]><r a=\"&i;\"/>", "a=\"a ba b\""),
+    ("<!DOCTYPE r [<!ATTLIST r a NMTOKENS #IMPLIED>]><r a=\"  x   y  \"/>", "a=\"x y\""),
+    ("<!DOCTYPE r [<!ATTLIST r a CDATA #IMPLIED>]><r a=\"  x   y  \"/>", "a=\"  x   y  \""),
+    ("<!DOCTYPE r [<!ATTLIST r a ID #IMPLIED>]><r a=\"\t x \n\"/>", "a=\"x\""),
+    ("<!DOCTYPE r [<!ATTLIST r a NMTOKENS #IMPLIED><!ENTITY e \" p  q \">]><r a=\"&e;&e;\"/>", "a=\"p q p q\""),
+    ("<!DOCTYPE r [<!ATTLIST r a NMTOKENS #IMPLIED>]><r a=\"&#32;x&#32;&#32;y&#32;\"/>", "a=\"x y\""),
+    ("<r a=\"&lt;&amp;&gt;&quot;&apos;\"/>", "a=\"<&>\\\"'\""),
+];
+
+pub fn info_attr_norm(doc: &str, expected: &str) -> Outcome {
+    use xml_dom::{Attr, Document, NamedNodeMap, Node};
+    let observed = guard(|| {
+        let d = match xml_dom::XmlDocument::from_raw(doc) {
+            Ok((_, d)) => d,
+            Err(_) => return "parse error".to_string(),
+        };
+        let r = match d.document_element() {
+            Ok(r) => r,
+            Err(_) => return "no document element".to_string(),
+        };
+        let mut out = vec![];
+        if let Some(attrs) = r.as_node().attributes() {
+            for a in attrs.iter() {
+                out.push(match a.value() {
+                    Ok(v) => format!("{}={:?}", a.node_name(), v),
+                    Err(_) => format!("{}=Err", a.node_name()),
+                });
+            }
+        }
+        out.join(" ")
+    });
+    Outcome { observed, expected: expected.to_string(), note: String::new() }
+}
